@@ -10,7 +10,7 @@
    This file contains only statements closed by `exact`, their assumptions and non-vacuity examples.
    Generated once by tools/genprops.py from the proved lemmas (statements restated verbatim). *)
 From Coq Require Import List NArith ZArith Bool Lia Sorting.Permutation.
-From Viv Require Import Base.Assoc Base.Tree Model.Paths Model.Steps Model.Struct Model.StructC Proofs.Struct_proofs Proofs.Consistent_proofs Proofs.MoveP_proofs Proofs.Consistent2_proofs Model.Fronts Proofs.Fronts_proofs Proofs.Sched_entry_proofs.
+From Viv Require Import Base.Assoc Base.Tree Model.Paths Model.Steps Model.Struct Model.StructC Proofs.Struct_proofs Proofs.Consistent_proofs Proofs.MoveP_proofs Proofs.Consistent2_proofs Model.Fronts Proofs.Fronts_proofs Proofs.Fronts_engine_proofs Proofs.Sched_entry_proofs.
 Import ListNotations.
 
 (* DELETIONS FIRST: after an update a registered process lies under a path the update deleted only if the same update (re-)registered it there - what was deleted (or moved away under its old path) is never polled again, what the update put there is *)
@@ -772,14 +772,13 @@ Theorem C10_movep_book_apply_premise_needed :
 Proof. exact @movep_book_apply_premise_needed. Qed.
 Print Assumptions C10_movep_book_apply_premise_needed.
 
-(* Model/Fronts.v (Engine.front is keyed by path, Model/Sched.v by pid): after Engine.apply_update every process object of the table has exactly the schedule entry it had before, wherever it was registered then, and a new object has none (side conditions on the reports: functional_reports, not_in_place, no_rotation, steps_apart - each shown necessary by a needs_* example) *)
+(* Model/Fronts.v (Engine.front is keyed by path, Model/Sched.v by pid): after Engine.apply_update every process object of the table has exactly the schedule entry it had before, wherever it was registered then - also when it was deleted and re-registered in place - and a new object has none (side conditions on the reports: functional_reports, no_rotation, steps_apart - each shown necessary by a needs_* example; discharged for the reports of the store by engine_reports_follow_op/_ops) *)
 Theorem C10_front_follows_identity :
   forall (T : Type) (b b' : book) (rp : reports) (fr : fronts T),
          wf_front T (b_procs b) fr ->
          book_apply b rp = Ok b' ->
          NoDup (map snd (b_procs b')) ->
          functional_reports rp ->
-         not_in_place b rp ->
          no_rotation b rp ->
          steps_apart b rp ->
          forall (o : N) (p' : list key),
@@ -840,6 +839,266 @@ Theorem C10_front_apply_pinned_refuted :
             Some [10%N; 20%N; kCnt] /\ NoDup (map snd (b_procs be)) /\ reports_follow pin_book rph).
 Proof. exact @front_apply_pinned_refuted. Qed.
 Print Assumptions C10_front_apply_pinned_refuted.
+
+(* the reports of ONE store operation satisfy the side conditions of front_follows_identity and leave every object registered once (premises: well-formed hierarchy, unique process objects, consistent tables, op_ok; kit premise: built subtrees carry fresh objects) *)
+Theorem C10_engine_reports_follow_op :
+  forall (mk_child : N -> cnode * N) (D : Type) (build : D -> N -> cnode * N)
+           (copy_procs : cnode -> N -> cnode * N),
+         (forall u : N, proc_nodes (fst (mk_child u)) [] = []) ->
+         (forall u : N, cwf (fst (mk_child u))) ->
+         (forall (x : D) (n : N), cwf (fst (build x n))) ->
+         (forall (x : D) (n : N) (p : list key) (pi : pinfo),
+          In (p, pi) (proc_nodes (fst (build x n)) []) -> pi_in_steps pi = true -> pi_step pi = true) ->
+         (forall (m : cnode) (n : N), cwf m -> cwf (fst (copy_procs m n))) ->
+         (forall u : N, (u <= snd (mk_child u))%N) ->
+         (forall (d : D) (u : N), fresh_sub (fst (build d u)) u (snd (build d u))) ->
+         (forall (m : cnode) (u : N), fresh_sub (fst (copy_procs m u)) u (snd (copy_procs m u))) ->
+         forall (vr : variant) (t : cnode) (here : list key) (o : sop D) 
+           (uid : N) (t' : cnode) (rp : reports) (uid' : N) (b b' : book),
+         cwf t ->
+         objs_unique t ->
+         objs_below t uid ->
+         op_ok D t here o ->
+         consistent_procs t b ->
+         consistent_steps t b ->
+         apply_op mk_child D build copy_procs vr t here o uid = Ok (t', rp, uid') ->
+         engine_apply b t' rp = Ok b' ->
+         reports_follow b (held_reports t' rp) /\
+         NoDup (map snd (b_procs b')) /\ objs_unique t' /\ objs_below t' uid' /\ (uid <= uid')%N.
+Proof. exact @engine_reports_follow_op. Qed.
+Print Assumptions C10_engine_reports_follow_op.
+
+(* ... of one update with ANY number of operations (no premise on the reports beyond reports_coherent) *)
+Theorem C10_engine_reports_follow_ops :
+  forall (mk_child : N -> cnode * N) (D : Type) (build : D -> N -> cnode * N)
+           (copy_procs : cnode -> N -> cnode * N),
+         (forall u : N, proc_nodes (fst (mk_child u)) [] = []) ->
+         (forall u : N, cwf (fst (mk_child u))) ->
+         (forall (x : D) (n : N), cwf (fst (build x n))) ->
+         (forall (x : D) (n : N) (p : list key) (pi : pinfo),
+          In (p, pi) (proc_nodes (fst (build x n)) []) -> pi_in_steps pi = true -> pi_step pi = true) ->
+         (forall (m : cnode) (n : N), cwf m -> cwf (fst (copy_procs m n))) ->
+         (forall u : N, (u <= snd (mk_child u))%N) ->
+         (forall (d : D) (u : N), fresh_sub (fst (build d u)) u (snd (build d u))) ->
+         (forall (m : cnode) (u : N), fresh_sub (fst (copy_procs m u)) u (snd (copy_procs m u))) ->
+         forall (vr : variant) (t : cnode) (here : list key) (ops : list (sop D)) 
+           (uid : N) (t' : cnode) (rp : reports) (uid' : N) (b b' : book),
+         cwf t ->
+         objs_unique t ->
+         objs_below t uid ->
+         ops_ok mk_child D build copy_procs vr t here (order_ops D ops) uid ->
+         consistent_procs t b ->
+         consistent_steps t b ->
+         apply_ops mk_child D build copy_procs vr t here ops uid = Ok (t', rp, uid') ->
+         reports_coherent rp ->
+         engine_apply b t' rp = Ok b' ->
+         reports_follow b (held_reports t' rp) /\
+         NoDup (map snd (b_procs b')) /\ objs_unique t' /\ objs_below t' uid' /\ (uid <= uid')%N.
+Proof. exact @engine_reports_follow_ops. Qed.
+Print Assumptions C10_engine_reports_follow_ops.
+
+(* END TO END, one operation through the full engine step: entries follow objects, new objects have none, the front invariant is kept *)
+Theorem C10_engine_front_follows_identity_op :
+  forall (mk_child : N -> cnode * N) (D : Type) (build : D -> N -> cnode * N)
+           (copy_procs : cnode -> N -> cnode * N),
+         (forall u : N, proc_nodes (fst (mk_child u)) [] = []) ->
+         (forall u : N, cwf (fst (mk_child u))) ->
+         (forall (x : D) (n : N), cwf (fst (build x n))) ->
+         (forall (x : D) (n : N) (p : list key) (pi : pinfo),
+          In (p, pi) (proc_nodes (fst (build x n)) []) -> pi_in_steps pi = true -> pi_step pi = true) ->
+         (forall (m : cnode) (n : N), cwf m -> cwf (fst (copy_procs m n))) ->
+         (forall u : N, (u <= snd (mk_child u))%N) ->
+         (forall (d : D) (u : N), fresh_sub (fst (build d u)) u (snd (build d u))) ->
+         (forall (m : cnode) (u : N), fresh_sub (fst (copy_procs m u)) u (snd (copy_procs m u))) ->
+         forall (T : Type) (vr : variant) (t : cnode) (here : list key) (o : sop D) 
+           (uid : N) (t' : cnode) (rp : reports) (uid' : N) (b b' : book) 
+           (fr : fronts T),
+         cwf t ->
+         objs_unique t ->
+         objs_below t uid ->
+         op_ok D t here o ->
+         consistent_procs t b ->
+         consistent_steps t b ->
+         wf_front T (b_procs b) fr ->
+         apply_op mk_child D build copy_procs vr t here o uid = Ok (t', rp, uid') ->
+         engine_apply b t' rp = Ok b' ->
+         wf_front T (b_procs b') (front_apply T b fr (held_reports t' rp)) /\
+         (forall ob : N,
+          In ob (map snd (b_procs b')) ->
+          entry_of T (b_procs b') (front_apply T b fr (held_reports t' rp)) ob =
+          entry_of T (b_procs b) fr ob) /\
+         (forall ob : N,
+          In ob (map snd (b_procs b')) ->
+          ~ In ob (map snd (b_procs b)) ->
+          entry_of T (b_procs b') (front_apply T b fr (held_reports t' rp)) ob = None).
+Proof. exact @engine_front_follows_identity_op. Qed.
+Print Assumptions C10_engine_front_follows_identity_op.
+
+(* ... one update with any number of operations *)
+Theorem C10_engine_front_follows_identity_ops :
+  forall (mk_child : N -> cnode * N) (D : Type) (build : D -> N -> cnode * N)
+           (copy_procs : cnode -> N -> cnode * N),
+         (forall u : N, proc_nodes (fst (mk_child u)) [] = []) ->
+         (forall u : N, cwf (fst (mk_child u))) ->
+         (forall (x : D) (n : N), cwf (fst (build x n))) ->
+         (forall (x : D) (n : N) (p : list key) (pi : pinfo),
+          In (p, pi) (proc_nodes (fst (build x n)) []) -> pi_in_steps pi = true -> pi_step pi = true) ->
+         (forall (m : cnode) (n : N), cwf m -> cwf (fst (copy_procs m n))) ->
+         (forall u : N, (u <= snd (mk_child u))%N) ->
+         (forall (d : D) (u : N), fresh_sub (fst (build d u)) u (snd (build d u))) ->
+         (forall (m : cnode) (u : N), fresh_sub (fst (copy_procs m u)) u (snd (copy_procs m u))) ->
+         forall (T : Type) (vr : variant) (t : cnode) (here : list key) (ops : list (sop D))
+           (uid : N) (t' : cnode) (rp : reports) (uid' : N) (b b' : book) 
+           (fr : fronts T),
+         cwf t ->
+         objs_unique t ->
+         objs_below t uid ->
+         ops_ok mk_child D build copy_procs vr t here (order_ops D ops) uid ->
+         consistent_procs t b ->
+         consistent_steps t b ->
+         wf_front T (b_procs b) fr ->
+         apply_ops mk_child D build copy_procs vr t here ops uid = Ok (t', rp, uid') ->
+         reports_coherent rp ->
+         engine_apply b t' rp = Ok b' ->
+         wf_front T (b_procs b') (front_apply T b fr (held_reports t' rp)) /\
+         (forall ob : N,
+          In ob (map snd (b_procs b')) ->
+          entry_of T (b_procs b') (front_apply T b fr (held_reports t' rp)) ob =
+          entry_of T (b_procs b) fr ob) /\
+         (forall ob : N,
+          In ob (map snd (b_procs b')) ->
+          ~ In ob (map snd (b_procs b)) ->
+          entry_of T (b_procs b') (front_apply T b fr (held_reports t' rp)) ob = None).
+Proof. exact @engine_front_follows_identity_ops. Qed.
+Print Assumptions C10_engine_front_follows_identity_ops.
+
+(* along any history of updates all invariants are kept (hierarchy well formed, objects unique, both tables consistent, front invariant) and an object registered throughout ends with the entry it started with *)
+Theorem C10_engine_front_history :
+  forall (mk_child : N -> cnode * N) (D : Type) (build : D -> N -> cnode * N)
+           (copy_procs : cnode -> N -> cnode * N),
+         (forall u : N, proc_nodes (fst (mk_child u)) [] = []) ->
+         (forall u : N, cwf (fst (mk_child u))) ->
+         (forall (x : D) (n : N), cwf (fst (build x n))) ->
+         (forall (x : D) (n : N) (p : list key) (pi : pinfo),
+          In (p, pi) (proc_nodes (fst (build x n)) []) -> pi_in_steps pi = true -> pi_step pi = true) ->
+         (forall (m : cnode) (n : N), cwf m -> cwf (fst (copy_procs m n))) ->
+         (forall u : N, (u <= snd (mk_child u))%N) ->
+         (forall (d : D) (u : N), fresh_sub (fst (build d u)) u (snd (build d u))) ->
+         (forall (m : cnode) (u : N), fresh_sub (fst (copy_procs m u)) u (snd (copy_procs m u))) ->
+         forall (T : Type) (vr : variant) (h : list (list key * list (sop D))) 
+           (t : cnode) (b : book) (u : N) (fr : fronts T) (bs : list book) 
+           (t' : cnode) (b' : book) (u' : N) (fr' : fronts T),
+         efront_history mk_child D build copy_procs T vr h t b u fr bs t' b' u' fr' ->
+         cwf t ->
+         objs_unique t ->
+         objs_below t u ->
+         consistent_procs t b ->
+         consistent_steps t b ->
+         wf_front T (b_procs b) fr ->
+         (cwf t' /\
+          objs_unique t' /\
+          objs_below t' u' /\
+          consistent_procs t' b' /\ consistent_steps t' b' /\ wf_front T (b_procs b') fr') /\
+         (forall o : N,
+          (forall bi : book, In bi bs -> In o (map snd (b_procs bi))) ->
+          entry_of T (b_procs b') fr' o = entry_of T (b_procs b) fr o).
+Proof. exact @engine_front_history. Qed.
+Print Assumptions C10_engine_front_history.
+
+(* process objects stay unique through any update *)
+Theorem C10_apply_ops_objs :
+  forall (mk_child : N -> cnode * N) (D : Type) (build : D -> N -> cnode * N)
+           (copy_procs : cnode -> N -> cnode * N),
+         (forall u : N, proc_nodes (fst (mk_child u)) [] = []) ->
+         (forall u : N, cwf (fst (mk_child u))) ->
+         (forall (x : D) (n : N), cwf (fst (build x n))) ->
+         (forall (x : D) (n : N) (p : list key) (pi : pinfo),
+          In (p, pi) (proc_nodes (fst (build x n)) []) -> pi_in_steps pi = true -> pi_step pi = true) ->
+         (forall (m : cnode) (n : N), cwf m -> cwf (fst (copy_procs m n))) ->
+         (forall u : N, (u <= snd (mk_child u))%N) ->
+         (forall (d : D) (u : N), fresh_sub (fst (build d u)) u (snd (build d u))) ->
+         (forall (m : cnode) (u : N), fresh_sub (fst (copy_procs m u)) u (snd (copy_procs m u))) ->
+         forall (vr : variant) (t : cnode) (here : list key) (ops : list (sop D)) 
+           (uid : N) (t' : cnode) (rp : reports) (uid' : N),
+         cwf t ->
+         objs_unique t ->
+         objs_below t uid ->
+         ops_ok mk_child D build copy_procs vr t here (order_ops D ops) uid ->
+         apply_ops mk_child D build copy_procs vr t here ops uid = Ok (t', rp, uid') ->
+         cwf t' /\
+         (exists news : list (list key * pinfo), upd_fit t t' rp news /\ origin t uid news) /\
+         objs_unique t' /\ objs_below t' uid' /\ (uid <= uid')%N.
+Proof. exact @apply_ops_objs. Qed.
+Print Assumptions C10_apply_ops_objs.
+
+(* a _move to the very parent the source hangs under is rejected *)
+Theorem C10_move_same_parent_rejected :
+  forall (mk_child : N -> cnode * N) (D : Type) (build : D -> N -> cnode * N)
+           (copy_procs : cnode -> N -> cnode * N) (vr : variant) (t : cnode) 
+           (here : list key) (src : key) (uid u : N) (g : bool) (c : list (key * cnode))
+           (node : cnode),
+         cget t here = Some (CDir u g c) ->
+         alookup src c = Some node ->
+         apply_op mk_child D build copy_procs vr t here (OpMove D src here) uid = Err EOther.
+Proof. exact @move_same_parent_rejected. Qed.
+Print Assumptions C10_move_same_parent_rejected.
+
+(* ... instantiated for the concrete kit of the correspondence (kit premises proved: structc_build_objs, structc_copy_objs) *)
+Theorem C10_structc_engine_front_history :
+  forall (T : Type) (vr : variant) (h : list (list key * list (sop N))) 
+           (t : cnode) (b : book) (u : N) (fr : fronts T) (bs : list book) 
+           (t' : cnode) (b' : book) (u' : N) (fr' : fronts T),
+         efront_history mk_child N build copy_procs T vr h t b u fr bs t' b' u' fr' ->
+         cwf t ->
+         objs_unique t ->
+         objs_below t u ->
+         consistent_procs t b ->
+         consistent_steps t b ->
+         wf_front T (b_procs b) fr ->
+         (cwf t' /\
+          objs_unique t' /\
+          objs_below t' u' /\
+          consistent_procs t' b' /\ consistent_steps t' b' /\ wf_front T (b_procs b') fr') /\
+         (forall o : N,
+          (forall bi : book, In bi bs -> In o (map snd (b_procs bi))) ->
+          entry_of T (b_procs b') fr' o = entry_of T (b_procs b) fr o).
+Proof. exact @structc_engine_front_history. Qed.
+Print Assumptions C10_structc_engine_front_history.
+
+(* record of repair d76c21b (found by this proof): an update that moves a compartment away and back lost the entry of a process that never left its place; the repaired code keeps it and the general theorem covers the update *)
+Theorem C10_front_apply_neq_refuted :
+  exists (t' : cnode) (rp : reports) (u' : N) (b' : book),
+           cwf rt_root /\
+           objs_unique rt_root /\
+           objs_below rt_root 200 /\
+           consistent_procs rt_root rt_book /\
+           consistent_steps rt_root rt_book /\
+           ops_ok mk_child N build copy_procs vfixed rt_root [30%N] (order_ops N rt_ops) 200 /\
+           kapply_ops vfixed rt_root [30%N] rt_ops 200 = Ok (t', rp, u') /\
+           reports_coherent rp /\
+           kengine_apply rt_book t' rp = Ok b' /\
+           wf_front (list key) (b_procs rt_book) rt_fr0 /\
+           (let rph := held_reports t' rp in
+            proc_paths t' = proc_paths rt_root /\
+            b_procs b' = b_procs rt_book /\
+            ~ no_round_trip rt_root t' rp /\
+            ~ not_in_place rt_book rph /\
+            reports_follow rt_book rph /\
+            NoDup (map snd (b_procs b')) /\
+            entry_of (list key) (b_procs rt_book) rt_fr0 107 = Some [30%N; 20%N; kCnt] /\
+            entry_of (list key) (b_procs b') (front_apply_neq (list key) rt_book rt_fr0 rph) 107 =
+            None /\
+            entry_of (list key) (b_procs b') (front_apply (list key) rt_book rt_fr0 rph) 107 =
+            Some [30%N; 20%N; kCnt] /\
+            (forall (T : Type) (fr : fronts T),
+             wf_front T (b_procs rt_book) fr ->
+             wf_front T (b_procs b') (front_apply T rt_book fr rph) /\
+             (forall ob : N,
+              In ob (map snd (b_procs b')) ->
+              entry_of T (b_procs b') (front_apply T rt_book fr rph) ob =
+              entry_of T (b_procs rt_book) fr ob))).
+Proof. exact @front_apply_neq_refuted. Qed.
+Print Assumptions C10_front_apply_neq_refuted.
 
 
 (* ---- non-vacuity on the concrete kit (Model/StructC.v) ---- *)
